@@ -167,6 +167,52 @@ func replayOps(ops []Op) {
 }
 
 func init() {
+	// mc porcheck <prop> <group> <tier> [name-substring]: explore each scenario without a bound
+	// twice, with and without the sleep-set reduction; both must finish and reach the same set
+	// of outcomes (self-test of the independence relation)
+	extraCommands["porcheck"] = func(args []string) {
+		redisemu.VInit()
+		secs := 120
+		if v := os.Getenv("VERIF_EXPLORE1_SECS"); v != "" {
+			fmt.Sscanf(v, "%d", &secs)
+		}
+		bad := 0
+		outcomeWithRealTimeOrder = true
+		stride := 1
+		if v := os.Getenv("VERIF_PORCHECK_STRIDE"); v != "" {
+			fmt.Sscanf(v, "%d", &stride)
+		}
+		for si, sc := range exploreScenarios(args[0], args[1], args[2]) {
+			if len(args) > 3 && !strings.Contains(sc.Name, args[3]) {
+				continue
+			}
+			if si%stride != 0 {
+				continue
+			}
+			full, red := newStats(), newStats()
+			exploreFrom(sc, nil, 1<<30, time.Now().Add(time.Duration(secs)*time.Second), full)
+			if full.TimedOut {
+				fmt.Printf("%-60s full exploration does not finish in %d s (%d schedules): skipped\n", sc.Name, secs, full.Execs)
+				continue
+			}
+			exploreDPOR(sc, time.Now().Add(time.Duration(secs)*time.Second), red)
+			same := len(full.Outcomes) == len(red.Outcomes) && !red.TimedOut
+			for k := range full.Outcomes {
+				if _, ok := red.Outcomes[k]; !ok {
+					same = false
+				}
+			}
+			verdict := "same outcomes"
+			if !same {
+				verdict = "OUTCOME SETS DIFFER"
+				bad++
+			}
+			fmt.Printf("%-60s full: %d schedules, %d outcomes; reduced: %d schedules + %d cut, %d outcomes: %s\n", sc.Name, full.Execs, len(full.Outcomes), red.Execs, red.SleepBlocked, len(red.Outcomes), verdict)
+		}
+		if bad > 0 {
+			os.Exit(1)
+		}
+	}
 	// mc explore1 <prop> <group> <tier> <bound> [name-substring]: explore scenarios one by one in
 	// this process, printing progress (debugging aid)
 	extraCommands["explore1"] = func(args []string) {
@@ -181,11 +227,23 @@ func init() {
 			st := newStats()
 			t0 := time.Now()
 			fmt.Fprintf(os.Stderr, "[%d/%d] %s ... ", i, len(scs), sc.Name)
-			exploreFrom(sc, nil, bound, time.Now().Add(60*time.Second), st)
-			fmt.Fprintf(os.Stderr, "%d schedules, %d violations, %.2fs, terminals %v\n", st.Execs, len(st.Violations), time.Since(t0).Seconds(), st.Terminals)
+			secs := 60
+			if v := os.Getenv("VERIF_EXPLORE1_SECS"); v != "" {
+				fmt.Sscanf(v, "%d", &secs)
+			}
+			if bound < 0 {
+				exploreDPOR(sc, time.Now().Add(time.Duration(secs)*time.Second), st)
+			} else {
+				exploreFrom(sc, nil, bound, time.Now().Add(time.Duration(secs)*time.Second), st)
+			}
+			fmt.Fprintf(os.Stderr, "%d schedules (+%d cut by sleep sets), %d outcomes, %d violations, timed out %v, %.2fs, terminals %v\n", st.Execs, st.SleepBlocked, len(st.Outcomes), len(st.Violations), st.TimedOut, time.Since(t0).Seconds(), st.Terminals)
 			for _, v := range st.Violations {
 				fmt.Fprintf(os.Stderr, "    %s: %s\n", v.Sig, v.Detail)
 			}
+			for o, n := range outcomeStrings {
+				fmt.Fprintf(os.Stderr, "    outcome x%d: %s\n", n, o)
+			}
+			outcomeStrings = map[string]int{}
 		}
 	}
 }
